@@ -95,11 +95,55 @@ def systems_stage(chk, lib, replay_text=None):
                         fails.append(('the C and Python implementations disagree: %s vs %s' % (x, y), text, ''))
         finally:
             shutil.rmtree(wd, ignore_errors=True)
+    if not replay_text:
+        prefix_probe(chk, hxg, fails, stats)
     chk.cov['systems_stage'] = stats
     for what, text, extra in fails[:3]:
         chk.violation('generated implementation does not compute what the model says: ' + what,
                       {'kind': 'oracle', 'engine': 'systems', 'cellml': text, 'why': what, 'generated_excerpt': extra}, True)
     return stats
+
+
+PREFIX_PROBE = """<?xml version="1.0" encoding="UTF-8"?>
+<model xmlns="http://www.cellml.org/cellml/2.0#" name="prefix_exponent">
+  <units name="mm2"><unit prefix="milli" exponent="2" units="metre"/></units>
+  <units name="m2"><unit exponent="2" units="metre"/></units>
+  <component name="source"><variable name="A" units="mm2" initial_value="4" interface="public"/></component>
+  <component name="user">
+    <variable name="A" units="m2" interface="public"/>
+    <variable name="y" units="m2"/>
+    <math xmlns="http://www.w3.org/1998/Math/MathML"><apply><eq/><ci>y</ci><ci>A</ci></apply></math>
+  </component>
+  <connection component_1="source" component_2="user"><map_variables variable_1="A" variable_2="A"/></connection>
+</model>
+"""
+
+
+def prefix_probe(chk, hxg, fails, stats):
+    """the input of known finding C03-prefix-under-exponent, always replayed: A = 4 mm^2 read as m^2 through a connection (y = A gives 4e-6)"""
+    kf = {f['id']: f for f in known_findings()['findings'] if f['property'] == 'C03'}
+    wd = tempfile.mkdtemp(prefix='c03p-')
+    try:
+        fn = os.path.join(wd, 'm.cellml'); open(fn, 'w').write(PREFIX_PROBE)
+        r = subprocess.run([hxg, fn, 'C'], capture_output=True, text=True, timeout=120)
+        out = r.stdout
+        if '=====IMPL' not in out:
+            fails.append(('C: the library crashed on the prefix probe (rc=%d)' % r.returncode, PREFIX_PROBE, '')); return
+        iface = out[out.index('=====IFACE') + 11:out.index('=====IMPL')]
+        impl = out[out.index('=====IMPL') + 10:]
+        lines, err = M.run_generated_c(impl, iface, wd, False)
+        if err:
+            fails.append(('C: generated code of the prefix probe does not run: %s' % err, PREFIX_PROBE, impl[-1500:])); return
+        ys = [float(l.split()[3]) for l in lines if len(l.split()) >= 4 and l.split()[2] == 'y']
+        stats['prefix_probe'] = ys
+        if ys and X.same(ys[0], 4e-6):
+            return
+        if 'C03-prefix-under-exponent' in kf:
+            chk.known_finding(kf['C03-prefix-under-exponent']['what'])
+        else:
+            fails.append(('C: A = 4 mm^2 (metre, prefix milli, exponent 2) connected to a variable in m^2: y = A is computed as %r, the units give 4e-06' % (ys[:1],), PREFIX_PROBE, impl[impl.find('nitialise'):][:1500]))
+    finally:
+        shutil.rmtree(wd, ignore_errors=True)
 
 
 def run(chk, replay=None):
